@@ -22,8 +22,8 @@ pub fn c10_meta(tier: Tier) -> Meta {
         rule: format!(
             "Model-based: a history is a sequence of planning requests (length, direction) applied to ONE planner; the model says every returned transform must be a correct DFT of its own length and direction whatever came before. \
              Bounded-exhaustive: for each of {targets}+ target lengths up to {tmax} (highly composite 11-smooth lengths, p*2^k with Rader/Bluestein primes, a few fixed ones) a pool of <= 8 RELATED requests is derived from the target's own fresh plan via the plan-report hook (every stage of its AVX radix chain / every sub-recipe of its scalar or SSE recipe, Rader/Bluestein inner lengths, multiples of the target, and two opposite-direction requests), and ALL sequences of length <= 3 over the pool are run on the Scalar, Sse and Avx planners, f32 and f64. \
-             Pairs: every (M, p) with p prime <= 400 (quick) / 2048 (thorough) and M = 2^a*3^b in [2p,12p]: the history [M, p, p'] (a cached M is a candidate Bluestein inner length). \
-             Window-fill: proptest-drawn histories of 2-5 requests with lengths inside [2p-1, 4p] (all of them candidate inner lengths) followed by a Bluestein prime p and a multiple of it. \
+             Pairs: every (M, p) with p prime <= 400 (quick) / 2048 (thorough) and M = 2^a*3^b in [p,12p]: the history [M, p, p'] (a cached M is a candidate Bluestein inner length when M >= 2p-1, and must NOT be taken for one when it is shorter). \
+             Window-fill: proptest-drawn histories of 2-5 requests with lengths inside [p, 4p] (candidate inner lengths and lengths just too short to be one) followed by a Bluestein prime p and a multiple of it. \
              Random: {cases} proptest-drawn histories of length 1..12 over the divisor lattices of 5040*{{1,11,13,59,251}} and 2^a*3^b lengths (Bluestein inner sizes), all four planners. \
              Oracle for EVERY transform returned in a history: len()/fft_direction(); C02 bound on a dense vector and C01 tolerance on an impulse against the reference DFT, through a rotating entry point with exactly the advertised scratch; C06 round trip whenever both directions of a length were returned; all of it after the planner has been dropped; and a twin planner fed the same history must return transforms with bit-identical outputs. \
              Non-trivial: the history contains a request that the planner splices onto something an earlier request built (AVX: plan shows CacheBase(b), b < n; scalar/SSE: a sub-recipe length built earlier in that direction), as reported by the plan-report hook just before the request.",
@@ -102,6 +102,9 @@ pub fn c10_targets(tier: Tier) -> Vec<usize> {
     }
     // primes (Rader / Bluestein) times powers of two, and a few fixed lengths
     t.extend([4608usize, 7560, 13500, 3780, 8748, 59 * 8, 251 * 4, 97 * 16, 1201, 2 * 1031, 83 * 6, 13 * 64, 11 * 11 * 8, 4096, 6561, 15625]);
+    // lengths whose part made of primes > 7 is composite and not a product of two butterflies: the scalar/SSE planners split
+    // it into cofactors that may or may not have been planned before (11*37, 11*13*17, 11*13*19, 2*11*13*19, 13*41, 3*17*37)
+    t.extend([407usize, 2431, 2717, 5434, 533, 1887]);
     t.retain(|&n| n <= tmax.max(16384));
     t.sort();
     t.dedup();
@@ -155,7 +158,7 @@ pub fn c10_worker(ctx: &mut Ctx) {
         let primes: Vec<usize> = fams.fams.iter().find(|f| f.0 == "prime_any").map(|f| f.1.clone()).unwrap_or_default();
         let smooth: Vec<usize> = fams.fams.iter().find(|f| f.0 == "smooth3").map(|f| f.1.clone()).unwrap_or_default();
         for &q in primes.iter().filter(|&&q| q > 32 && q <= pmax) {
-            for &m in smooth.iter().filter(|&&m| m >= 2 * q && m <= 12 * q) {
+            for &m in smooth.iter().filter(|&&m| m >= q && m <= 12 * q) {
                 if !ctx.mine() {
                     continue;
                 }
@@ -210,8 +213,8 @@ pub fn c10_worker(ctx: &mut Ctx) {
     let nb = blue.len().max(1);
     let strat2 = (0..nb, proptest::collection::vec(any::<u16>(), 2..=5), 0..4usize, 0..2usize, 0..2usize, 1..=4usize, any::<u64>()).prop_map(move |(bi, fills, pl, ty, dir, mult, seed)| {
         let p = blue[bi % blue.len()];
-        let lo = 2 * p - 1;
-        let span = 2 * p + 2;
+        let lo = p;
+        let span = 3 * p + 2;
         let d = DIRS[dir];
         let mut reqs: Vec<Req> = fills.iter().map(|f| Req { n: lo + (*f as usize * span >> 16), dir: d }).collect();
         reqs.push(Req { n: p, dir: d });
@@ -314,6 +317,9 @@ pub fn c13_worker(ctx: &mut Ctx) {
     for i in 0..structured {
         lens.push(fams.pick(i % nf, st.next()).0);
     }
+    // landmark lengths (digit-reversal depth, index width): the portable / SSE code paths are only reachable on this CPU
+    // through the masked and feature-reduced configurations, so they get their large lengths here
+    lens.extend([1usize << 14, 3 << 12, 1 << 15, 3 << 14, 1 << 16, 65539, 5 << 13]);
     for (i, &n) in lens.iter().enumerate() {
         for ty in TYS {
             if !ctx.mine() {
